@@ -60,6 +60,9 @@ def obligations_search(ctx: Ctx, tables: dict) -> bool:
     ctx.coverage["violated_obligations"] = failing
     before = len(ctx.violations) + len(ctx.known_hits)
     flags = {s for k in ("cli_ini_agree", "dest_settable") for item in failing.get(k, []) for s in item.split("/") if s.startswith("--")}
+    # a list-valued option without a converter: compare the flag that sets it with the config-file spelling
+    untyped = set(failing.get("list_options_typed", []))
+    flags |= {s for f in tables["flags"] if f["dest"] in untyped for s in f["strings"] if s.startswith("--")}
     if flags:
         sources.source_equivalence(ctx, tables, only_flags=flags)
         if len(ctx.violations) + len(ctx.known_hits) == before:
@@ -122,7 +125,7 @@ def main(ctx: Ctx) -> None:
         "compile_glob's regex = component-wise matching on dotted names (glob_correct); section names ↔ component lists (section_names_faithful)",
         "inline comments on top / later comment wins; command line over [mypy] over defaults for store-type flags",
         "over the regenerated tables: cli_ini_agree, dest_settable, toml_ini_same_keys, per_module_flags_inline_ok, strict_flags_ok, "
-        "list_options_typed_partial (+ not_list_options_typed: deprecated_calls_exclude)"]
+        "list_options_typed (pre_repair_row_untyped: the row before repair 9b531e7 fails it)"]
     ctx.coverage["validated_by_correspondence"] = [
         "models of clone_for_module / compile_glob / parse_section keys / invert_flag_name / parse_mypy_comments merging / "
         "process_options order vs the real functions, on the generated inputs counted in `distribution`"]
